@@ -608,7 +608,7 @@ def mutate(text, toks, rng, vocab):
     if not toks:
         return 'garbage', rng.choice(GARBAGE)
     k = rng.choice(['delete', 'dup', 'replace', 'insert', 'truncate', 'prefix', 'suffix', 'infix', 'swap', 'concat_garbage',
-                    'concat_stmt', 'unbalance', 'glue', 'relayout', 'comment', 'numedge', 'concat_long', 'comment_sandwich', 'stray_lexeme', 'lexeme_for_value'])
+                    'concat_stmt', 'unbalance', 'glue', 'relayout', 'comment', 'numedge', 'concat_long', 'comment_sandwich', 'stray_lexeme', 'lexeme_for_value', 'inner_blank'])
     i = rng.randrange(len(toks))
     t = toks[i]
     piece = text[t[2]:t[3]]
@@ -630,6 +630,14 @@ def mutate(text, toks, rng, vocab):
         nums = [x for x in toks if x[0] in ('INTEGER', 'FLOAT')]
         x = rng.choice(nums) if nums else t
         return k, text[:x[2]] + rng.choice(NUMBER_EDGES) + text[x[3]:]
+    if k == 'inner_blank':
+        # the blank INSIDE a multi-word token (ORDER BY, NOT IN, IS NOT, PRIMARY KEY ...) written as a line break / tab / several blanks
+        multi = [x for x in toks if ' ' in text[x[2]:x[3]] and x[0] not in ('QUOTE_STRING', 'DQUOTE_STRING', 'ID')]
+        if multi:
+            x = rng.choice(multi)
+            piece2 = text[x[2]:x[3]].replace(' ', rng.choice(['\n', '\t', '  ', '\r\n', '\n  ', ' \n']), 1)
+            return k, text[:x[2]] + piece2 + text[x[3]:] + (' ' + rng.choice(GARBAGE) if rng.random() < 0.5 else '')
+        return k, text + ' ' + rng.choice(GARBAGE)
     if k == 'stray_lexeme':
         # a value-like lexeme where the grammar expects none (between two tokens, blanks on both sides)
         return k, text[:t[3]] + ' ' + rng.choice(LEXEME_FORMS) + ' ' + text[t[3]:]
